@@ -25,9 +25,76 @@ func staticFault(r *core.Run, w *world.World, raw *[]byte, pool **x509.CertPool,
 	for _, k := range core.SortedKeys(w.PCS.Tcb) {
 		tcbKey = k
 	}
-	switch k := t.Draw(20); k {
+	past := world.Window{NotBefore: w.Epoch.AddDate(-9, 0, 0), NotAfter: w.Epoch.AddDate(0, 0, -40)}
+	future := world.Window{NotBefore: w.Epoch.AddDate(0, 0, 40), NotAfter: w.Epoch.AddDate(9, 0, 0)}
+	caSpec := func() world.CertSpec {
+		if w.CAID == "processor" {
+			return w.A.ProcSpec
+		}
+		return w.A.PlatSpec
+	}
+	rebuild := func() { w.Build(false); *raw = w.Quote.Bytes() }
+	switch k := t.Draw(30); k {
 	case 0, 1, 2:
 		return "none"
+	// out-of-date copies of certificates as carried in the quote and in the issuer-chain headers, while
+	// the pool holds the current root
+	case 20:
+		w.RootInQuote = w.A.ReissueRoot(past)
+		rebuild()
+		return "quote-root-copy-expired"
+	case 21:
+		w.RootInQuote = w.A.ReissueRoot(future)
+		rebuild()
+		return "quote-root-copy-not-yet-valid"
+	case 22:
+		if t.Bool() {
+			w.RootInTcb = w.A.ReissueRoot(past)
+		} else {
+			w.RootInQE = w.A.ReissueRoot(past)
+		}
+		w.Publish()
+		return "collateral-header-root-copy-expired"
+	case 23:
+		w.RootInCrl = w.A.ReissueRoot(past)
+		w.Publish()
+		return "pckcrl-header-root-copy-expired"
+	case 24:
+		sp := caSpec()
+		sp.Win = []world.Window{past, future}[t.Draw(2)]
+		w.CA = world.Issue(sp, w.CAKey, w.A.Root, w.A.RootKey)
+		rebuild()
+		return "quote-intermediate-out-of-date"
+	case 25:
+		w.P.PCKSp.Win = []world.Window{past, future}[t.Draw(2)]
+		rebuild()
+		return "leaf-out-of-date"
+	case 26:
+		sp := w.A.TcbSpec
+		sp.Win = []world.Window{past, future}[t.Draw(2)]
+		c := world.Issue(sp, w.A.TcbKey, w.A.Root, w.A.RootKey)
+		if t.Bool() {
+			w.TcbSignerInTcb = c
+		} else {
+			w.TcbSignerInQE = c
+		}
+		w.Publish()
+		return "collateral-signer-out-of-date"
+	case 27:
+		sp := caSpec()
+		sp.Win = past
+		w.CAInCrl = world.Issue(sp, w.CAKey, w.A.Root, w.A.RootKey)
+		w.Publish()
+		return "pckcrl-header-issuer-expired"
+	case 28:
+		w.PckCrl.Next = w.Epoch.AddDate(0, 0, -40)
+		w.PckCrl.This = w.Epoch.AddDate(0, 0, -70)
+		w.Publish()
+		return "pckcrl-stale"
+	case 29:
+		w.Tcb.Next = w.Epoch.AddDate(0, 0, -40)
+		w.Publish()
+		return "tcbinfo-stale"
 	case 3:
 		_, regs := w.Quote.BytesRegions()
 		rg := regs[t.Draw(2)] // header or body
